@@ -253,6 +253,20 @@ def run_records(case):
             ar2 = dns.rdata.from_wire(rdclass, rdtype, ws[0], 0, len(ws[0]), o)
             if ar != ar2 or hash(ar) != hash(ar2):
                 raise Violation("equality", f"{tname}: two identical relative records differ", "releq:" + tname)
+            # relative records that are equal (same canonical encoding, e.g. names differing in case
+            # only) hash equally and collapse in a set, exactly like absolute ones
+            swapped = bytes(c ^ 0x20 if (65 <= c <= 90 or 97 <= c <= 122) else c for c in ws[0])
+            try:
+                tw = dns.rdata.from_wire(rdclass, rdtype, swapped, 0, len(swapped), o)
+            except dns.exception.FormError:
+                tw = None
+            if tw is not None and tw == ar:
+                if hash(tw) != hash(ar):
+                    raise Violation("equality", f"{tname}: equal records holding relative names hash differently ({ar.to_text()!r} / {tw.to_text()!r})", "rel-case-twin-hash:" + tname)
+                if len({ar, tw}) != 1:
+                    raise Violation("equality", f"{tname}: equal relative records stay two members of a set", "rel-case-twin-set:" + tname)
+                if tw.to_text() != ar.to_text():
+                    classes.append("relative-case-twin")
             # the relative name "x" (under origin o) is not the absolute name "x.": rewrite the
             # first embedded name that lies strictly beneath o as <prefix>. (absolute) and decode
             # with the same origin; the two records must not compare equal
@@ -738,7 +752,7 @@ def set_cases(draw):
 def parts(tier):
     return [
         Part("records", run_records, strategy=record_cases(), n={"quick": 14000, "thorough": 400000},
-             require={"equal-differ-in-case": 300, "relative": 100, "slots-walked": 5000, "ctor-alias-checked": 3000, "typed-vs-generic": 5000, "relative-vs-absolute-twin": 50},
+             require={"equal-differ-in-case": 300, "relative": 100, "slots-walked": 5000, "ctor-alias-checked": 3000, "typed-vs-generic": 5000, "relative-vs-absolute-twin": 50, "relative-case-twin": 20},
              shards={"quick": 8, "thorough": 16}),
         Part("sets", run_sets, strategy=set_cases(), n={"quick": 6000, "thorough": 200000},
              require={"dup": 500, "alias": 500, "intruder": 300, "singleton": 100,
